@@ -322,4 +322,32 @@ def trigFallbackMerge (cfg : Cfg) (a b : Name) : Bool :=
 def trigMerge (cfg : Cfg) (a b : Name) : Bool :=
   trigSnakeMerge cfg a b || trigTrimMerge cfg a b || trigSuffixMerge cfg a b || trigFallbackMerge cfg a b
 
+/-! ### Scope level -/
+
+/-- the flags a scope passes to `process_name` (enum values: the keyword suffix only, which is
+    `process_name` with all three flags off) -/
+def scopeCfg (snakeSetting : Bool) : Scope → Cfg
+  | .resultField => fieldCfg snakeSetting
+  | .inputField => fieldCfg snakeSetting
+  | .variable => variableCfg snakeSetting
+  | .operation => operationCfg
+  | .enumValue => ⟨false, false, false⟩
+
+/-- C18-F8 (response keys, snake-casing off): `__typename` is mapped to the constant
+    `typename__`, which is also what `typename__` / `_typename__` are mapped to. -/
+def trigTypenameClash (snakeSetting : Bool) (a b : Name) : Bool :=
+  !snakeSetting &&
+    ((a == typenameField && b != typenameField && lstripU b == typenameAlias) ||
+     (b == typenameField && a != typenameField && lstripU a == typenameAlias))
+
+/-- the merge regions of a scope -/
+def trigScopeMerge (snakeSetting : Bool) (s : Scope) (a b : Name) : Bool :=
+  if s = .resultField ∧ (a = typenameField ∨ b = typenameField) then trigTypenameClash snakeSetting a b
+  else trigMerge (scopeCfg snakeSetting s) a b
+
+/-- the single-name regions (C18-F4, C18-F5) of a scope -/
+def trigScopeSingle (snakeSetting : Bool) (s : Scope) (n : Name) : Bool :=
+  if s = .resultField ∧ n = typenameField then false
+  else trigDigitLead (scopeCfg snakeSetting s) n || trigTrimToKeyword (scopeCfg snakeSetting s) n
+
 end Ariadne.Names
